@@ -47,7 +47,7 @@ ASSUMPTIONS = [
     "no atomic-replace is demanded after failed saves",
 ]
 COMPONENTS = {"real": ["partitura.io.exportmidi.save_score_midi", "partitura.io.importmidi.load_score_midi", "partitura.io.load_score", "score.add_measures/tie_notes/find_tuplets", "musicanalysis.estimate_spelling", "mido"], "stub": ["raw file layer (SimFS)", "independent SMF decoder (model/ref_smf.py)"]}
-PROBES = ("built_with_queries_before_structure", "tuplet_ticks", "division_change", "pickup", "grace_notes", "tie_over_barline", "fault_in_flight", "reader_on_torn_file", "torn_file_accepted", "midifile_object_route", "load_score_route", "minimum_ppq_doubling")
+PROBES = ("resequenced_file", "built_with_queries_before_structure", "tuplet_ticks", "division_change", "pickup", "grace_notes", "tie_over_barline", "fault_in_flight", "reader_on_torn_file", "torn_file_accepted", "midifile_object_route", "load_score_route", "minimum_ppq_doubling")
 
 POLICIES = ("shift", "pad_bar", "time_sig_change")
 
@@ -255,7 +255,7 @@ def generate(seed, tier, cfg):
             at = f.choice((0, 0, 1, 2, 3, 5, 8))
             err = {"F1": f.choice((28, 13, 2)), "F2": f.choice((28, 5)), "F3": 28, "F4": 0, "F5": f.choice((2, 13)), "F6": 5}[kind]
             faults.append({"kind": kind, "path": "*", "at": at if kind in ("F2", "F4", "F6") else 0, "errno": err, "op_index": oi, "frac": (round(f.random(), 3) if kind in ("F2", "F4", "F6") and f.random() < 0.5 else None)})
-    return {"workload": asc, "ops": ops, "faults": faults, "knobs": {"mode": mode, "policy": policy, "min_ppq": min_ppq, "velocity": velocity, "chunk": k.choice((1, 7, 16, 0, 0)), "bufsize": k.choice((-1, 16, 512)), "late_structure": k.random() < 0.3, "late_divs": k.random() < 0.3, "quantize_one_tick": k.random() < 0.25}}
+    return {"workload": asc, "ops": ops, "faults": faults, "knobs": {"mode": mode, "policy": policy, "min_ppq": min_ppq, "velocity": velocity, "chunk": k.choice((1, 7, 16, 0, 0)), "bufsize": k.choice((-1, 16, 512)), "late_structure": k.random() < 0.3, "late_divs": k.random() < 0.3, "quantize_one_tick": k.random() < 0.25, "resequence": k.random() < 0.3}}
 
 
 # ----------------------------------------------------------------------------
@@ -383,6 +383,11 @@ def check_bytes(res, data, asc, exp, kn):
                     pos = F(0)
                 ts_want.add((pos, ts["beats"], ts["beat_type"]))
         ts_got = set((F(ev["tick"], ppq), ev["numerator"], ev["denominator"]) for tr in smf["tracks"] for ev in tr if ev["type"] == "time_signature")
+        # the fourth byte of the event says how many notated 32nd notes make a MIDI quarter note (24 MIDI clocks): 8,
+        # unless the file wants its quarter to be notated as something else - the score has no such notion
+        odd = [(str(F(ev["tick"], ppq)), ev["numerator"], ev["denominator"], ev["n32"]) for tr in smf["tracks"] for ev in tr if ev["type"] == "time_signature" and ev["n32"] != 8]
+        if odd:
+            res.violation("M3-positions", "save", "time signature events declare a MIDI quarter to be notated as %s 32nd notes: %s" % (odd[0][3], odd), site="time_signature:notated-32nds")
         if ts_got != ts_want:
             res.violation("M3-positions", "save", "time signatures in the file %s, expected %s" % (sorted((str(a), b, c) for a, b, c in ts_got), sorted((str(a), b, c) for a, b, c in ts_want)), site="time_signature")
         ks_want = set()
@@ -564,6 +569,22 @@ def execute(case, keep_log=False):
                 state = content.get(path)
                 loaded = None
                 route = op["route"]
+                if kn.get("resequence") and not case["faults"] and state == "ref" and i == len(case["ops"]) - 1:
+                    # the file passes through a sequencer before it is read: controller, pitch-bend and program events
+                    # appear between the notes (each with its own delta time); the notes and signatures stay where they are
+                    smf_ = ref_smf.decode(fs.get(path))
+                    tracks_ = []
+                    for tr in smf_["tracks"]:
+                        ticks_ = sorted(set(ev["tick"] for ev in tr))
+                        extra = []
+                        for a_, b_ in zip(ticks_, ticks_[1:]):
+                            if b_ - a_ >= 2:
+                                mid = (a_ + b_) // 2
+                                extra.append([{"tick": mid, "type": "control_change", "channel": 0, "control": 64, "value": 127 if len(extra) % 2 == 0 else 0}, {"tick": mid, "type": "pitchwheel", "channel": 0, "pitch": 100}, {"tick": mid, "type": "program_change", "channel": 0, "program": 5}][len(extra) % 3])
+                        tracks_.append([ev for ev in tr if ev["type"] not in ("meta", "other")] + extra)
+                    if any(len(a_) != len([ev for ev in b_ if ev["type"] not in ("meta", "other")]) for a_, b_ in zip(tracks_, smf_["tracks"])):
+                        res.probe("resequenced_file")
+                        fs.put(path, ref_smf.encode(smf_["ppq"], tracks_, fmt=smf_["format"]))
                 try:
                     if route == "path":
                         loaded = with_timeout(20, load_score_midi, path, part_voice_assign_mode=kn["mode"], **import_opts(kn))
